@@ -419,7 +419,7 @@ def pick_name(g, env, a, taken, sel_expr):
     return a.fresh()
 
 
-def gen_assoc_block(g, env, depth, nstmts, a):
+def gen_assoc_block(g, env, depth, nstmts, a, must_nest=0):
     child = clone_env(env)
     pairs, new = [], {}
     if a.adepth == 0:
@@ -477,6 +477,12 @@ def gen_assoc_block(g, env, depth, nstmts, a):
     if not a.certain:
         a.feats.add('assoc-under-condition')
     body = gen_body(g, child, depth + 1, max(2, nstmts - 1), a)
+    if must_nest > 0 and a.adepth < 3:
+        # guaranteed nesting (executes whenever this block does)
+        inner = gen_assoc_block(g, child, depth + 1, max(2, nstmts - 1), a, must_nest - 1)
+        if inner is not None:
+            pos = g.i(0, len(body))
+            body = body[:pos] + [inner] + body[pos:]
     a.adepth -= 1
     a.block_stack.pop()
     if a.adepth == 0:
@@ -613,31 +619,25 @@ def gen_xforms(g, stream, hazard):
         return [{'entry': 'do_resolve_associates', 'start_depth': 0}]
     if hazard in ('merge-shadow', 'merge-loopdep', 'merge-empties-inner'):
         return [{'entry': 'do_merge_associates', 'max_parents': None}]
-    pool_resolve = [
-        {'entry': 'do_resolve_associates', 'start_depth': 0},
-        {'entry': 'do_resolve_associates', 'start_depth': 0},
-        {'entry': 'do_resolve_associates', 'start_depth': 1},
-        {'entry': 'do_resolve_associates', 'start_depth': 2},
-        {'entry': 'AssociatesTransformation', 'resolve_associates': True, 'merge_associates': False,
-         'start_depth': g.i(0, 2), 'max_parents': None},
-    ]
-    pool_merge = [
-        {'entry': 'do_merge_associates', 'max_parents': g.pick([None, None, 1, 2])},
-        {'entry': 'AssociatesTransformation', 'resolve_associates': True, 'merge_associates': True,
-         'start_depth': g.i(0, 2), 'max_parents': g.pick([None, 1, 2])},
-        {'entry': 'AssociatesTransformation', 'resolve_associates': False, 'merge_associates': True,
-         'start_depth': 0, 'max_parents': g.pick([None, 1])},
-    ]
+
+    def resolve(d):
+        return {'entry': 'do_resolve_associates', 'start_depth': d}
+
+    def at(res, mer, d, mp):
+        return {'entry': 'AssociatesTransformation', 'resolve_associates': res, 'merge_associates': mer,
+                'start_depth': d, 'max_parents': mp}
+
+    # several variants per program: the original is generated, compiled and run once for all of them
     if stream == 'resolve':
-        pool = pool_resolve
+        d = g.pick([1, 2])
+        out = [resolve(0), resolve(d), at(True, False, g.i(0, 2), None)]
+        if g.chance(50):
+            out.append(resolve(3 - d))
     else:
-        pool = pool_resolve[:3] + pool_merge + pool_merge
-    k = g.i(2, 3)
-    out = []
-    for _ in range(k):
-        x = g.pick(pool)
-        if x not in out:
-            out.append(x)
+        out = [{'entry': 'do_merge_associates', 'max_parents': g.pick([None, None, 1, 2])},
+               at(True, True, g.i(0, 2), g.pick([None, 1, 2])),
+               at(False, True, 0, g.pick([None, 1])),
+               resolve(g.i(0, 1))]
     return out
 
 
@@ -729,10 +729,15 @@ def cases(draw, hazard=None, nvec=4):
         body_hz = hazard_block(g, env, a, hazard)
 
     body_main = gen_body(g, env, 0, 5, a)
-    if not a.certain_depths and not hazard:
-        blk = gen_assoc_block(g, env, 0, 3, a)
-        if blk is not None:
-            body_main.append(blk)
+    if not hazard:
+        # merging and partial-depth resolution need nested blocks that certainly execute
+        want = 2 if (merge_safe or g.chance(60)) else 1
+        if g.chance(35):
+            want += 1
+        if max(a.certain_depths or [0]) < want:
+            blk = gen_assoc_block(g, env, 0, 3, a, must_nest=want - 1)
+            if blk is not None:
+                body_main.insert(g.i(0, len(body_main)), blk)
     if hazard:
         pos = g.i(0, len(body_main))
         hz_paths = [len(prologue) + pos + i for i in range(len(body_hz))]
